@@ -10,22 +10,32 @@ from concurrent.futures import ThreadPoolExecutor
 from .common import Ctx, Driver, tok, uncps, REPO
 
 MANIFEST = dict(
-    text=("Lean theorems, for every table satisfying the decidable TblOK/XmlOK and ALL strings: substitute_xml and substitute_html "
-          "leave no raw < or >, every & of their output starts `name;` for a name the reader knows, reading the output back as "
-          "element text (model of html.parser + bs4 handle_entityref/handle_charref) or as a quoted attribute value (quote stripping + "
-          "html.unescape) gives the original string, quoted_attribute_value is always `q body q` with q not in body, the order of the "
-          "regex alternation is irrelevant; TblOK/XmlOK of the live tables (all alternatives parsed back from the compiled patterns, "
-          "CHARACTER_TO_HTML_ENTITY, HTML_ENTITY_TO_CHARACTER, html.entities.html5) decided by the kernel on every run. substitute_html5: "
-          "round trip proved for strings without a bare ampersand that starts a reference, refuted in general by decided witnesses "
-          "(known findings). Tie: differential runs of the four substitutions, quoting, Formatter.substitute/attribute_value and of "
-          "both reader models against the real code and the real parser: every BMP code point, every table key, every entity name "
-          "with and without ';', all strings <= 4 (thorough 5) over a 12-symbol markup alphabet, random longer strings; plus the same "
-          "substitutions through Tag.decode() for strings under every kind of parent element, custom cdata_containing_tags "
-          "configurations, and render histories on the shared registry formatters (same text in script/style first, then elsewhere)."),
+    text=("Lean theorems, for every table satisfying the decidable TblOK / XmlOK / Html5FixOK and ALL strings (no bound, lone surrogates "
+          "included): substitute_xml, substitute_html and the (repaired) substitute_html5 leave no raw < or >; every & written by "
+          "substitute_xml/html starts `name;` for a name the reader knows; reading the output back as element text (model of html.parser "
+          "convert_charrefs=False + bs4 handle_entityref/handle_charref) and as a quoted attribute value (quote stripping + html.unescape) "
+          "gives the original string — for all three substitutions; quoted_attribute_value is always `q body q` with q not in body; any "
+          "permutation of the regex alternation gives the same output; Formatter.substitute leaves a string alone exactly when its parent's "
+          "name is in the configured cdata_containing_tags (explicit empty = nothing exempt) and the round trips hold through "
+          "format_string / formatter_for_name / attribute rendering for object, registry-key and callable formatters. "
+          "_populate_class_variables is mirrored: for ANY html5 table (values of <= 2 code points) the alternatives it builds are mutually "
+          "exclusive, catch every named character, and are all named — by construction. Table obligations decided by the kernel on every "
+          "run over the WHOLE live tables (all ~1480 alternatives parsed back from the compiled patterns, every key of "
+          "html.entities.html5, the registries, HTML_DEFAULTS). 4.13.0's substitute_html5 (kept as substHtml5Old) is refuted by four decided "
+          "witnesses and proved equal to the repaired function wherever both take the same decision at every ampersand. "
+          "Tie: differential runs against the real code and the real parser: every BMP code point, every table key, every entity name with "
+          "and without ';', all strings <= 4 (thorough 5) over a 12-symbol markup alphabet, random/malformed strings; Tag.decode() for "
+          "strings under 21 parent names, parser-built string classes, custom cdata_containing_tags, render histories on the shared "
+          "formatters, XML-tree and callable formatters, list/tuple/None attribute values; _populate_class_variables on the live and on "
+          "synthetic html5 tables; eight PYTHONHASHSEED values."),
     design="7/C09",
-    note=("Text is read back inside <pre> (bs4 collapses whitespace-only strings elsewhere — builder policy, not entity handling). "
-          "Decimal references of more than 4300 digits (C06) are not generated."),
-    technique="Lean 4 proof over an abstract table + kernel-decided table obligation + exhaustive/random correspondence with the real substitution functions and the real parser",
+    note=("RECORDED, not verified: CPython's html.parser tokenizer and html.unescape — the two reader models are compared with the real "
+          "parser on every generated case. Text is read back inside <pre> (bs4 collapses whitespace-only strings elsewhere — builder "
+          "policy). Decimal references of more than 4300 digits (C06) are not generated. The name round trip of the tables "
+          "(HTML_ENTITY_TO_CHARACTER[CHARACTER_TO_HTML_ENTITY[k]] = k) is a decided fact of the live tables, not a consequence of the "
+          "construction. The exact set of strings the OLD substitute_html5 round-trips is not characterised (sufficient condition + "
+          "refutations only)."),
+    technique="Lean 4 proof over abstract tables + kernel-decided whole-table obligations + exhaustive/random correspondence with the real substitution functions, formatter glue and the real parser",
 )
 
 ALPHABET = "&<>\"';#x1alt"
@@ -869,6 +879,37 @@ def replay(path):
             print("  PROPERTY FAILS:", f["what"], "| expected", f.get("expected") and ascii(uncps(f["expected"])) if f.get("expected") and "/" not in f["expected"] else f.get("expected"),
                   "| observed", f.get("observed"), "| known-finding class:", f.get("kf"))
         return 1 if fails else 0
+    if c.get("op") == "attr-form":
+        from bs4 import BeautifulSoup
+        v = c["value"]
+        if c["kind"] == "tuple":
+            v = tuple(v)
+        soup = BeautifulSoup("", "html.parser")
+        tag = soup.new_tag("p")
+        tag["t"] = v
+        rendered = tag.decode(formatter=c["formatter"])
+        want = v if isinstance(v, str) else " ".join(v)
+        back = BeautifulSoup(rendered, "html.parser").find("p")
+        got = None if back is None else back.get("t")
+        print(f"attribute t={v!r} rendered with formatter {c['formatter']!r}: {rendered!r}; read back {got!r}; the property demands {want!r}")
+        return 0 if got == want else 1
+    if c.get("op") == "populate" and "html5" in c:
+        import bs4.dammit as D
+        from unittest import mock
+        E = _E()
+        Tmp = type("Tmp", (E,), {})
+        tbl = {k: uncps(v) for k, v in c["html5"].items()}
+        cp = {int(k): v for k, v in c["codepoint2name"].items()}
+        with mock.patch.object(D, "html5", tbl), mock.patch.object(D, "codepoint2name", cp):
+            Tmp._populate_class_variables()
+        real, same = canonical_tables(Tmp)
+        items = "/".join(f"{tok(k)}:{tok(v)}" for k, v in sorted(tbl.items())) or "-"
+        cpl = "/".join(f"{k}:{tok(v)}" for k, v in cp.items()) or "-"
+        model = Driver().ask([f"c09 populate {items} {cpl}"])[0]
+        print("html5 =", tbl, "codepoint2name =", cp)
+        print("implementation:", real[:1500])
+        print("model         :", model[:1500])
+        return 0 if real == model and same else 1
     if c.get("op") == "hashseed":
         d = {seed: hash_seed_digest(seed) for seed in (0, 1, 2, 3, 5, 8, 13, 12345)}
         print(d)
